@@ -22,7 +22,7 @@ TOP = ["class Box:", "    def __init__(self, v):", "        self.v = v", "      
        "def alias_exits(o, w):", "    q = o", "    if choice():", "        q.f = w", "        return o", "    q.f = 8", "    return o", "",
        "def plain_arms(o, w):", "    if choice():", "        o.f = w", "    else:", "        o.f = 6", "    return 0", ""]
 
-INT_ONLY = {"arith_add", "arith_sub_neg", "arith_mul", "arith_zero", "add_call", "two_sites_add", "sub3",
+INT_ONLY = {"two_multi_operands", "multi_right_operand", "join_two_reads", "join_alias_reads", "arith_add", "arith_sub_neg", "arith_mul", "arith_zero", "add_call", "two_sites_add", "sub3",
             "callee_alias_two_arms", "callee_alias_two_exits", "callee_param_two_arms", "branch_alias_field", "two_sites_wrap", "two_sites_wrap2", "two_sites_fill", "maybe_receiver"}
 STR_ONLY = {"concat", "concat_left", "concat_digits", "repeat"}
 
@@ -109,6 +109,14 @@ def step(name, cur, nv, i, kind="int"):
         return ["%s = %s" % (nv, A6), "if choice():", "    %s = %s" % (nv, cur)]
     if name == "branch_field":
         return ["o%d = Box(0)" % i, "if choice():", "    o%d.f = %s" % (i, cur), "else:", "    o%d.f = %s" % (i, A6), "%s = o%d.f" % (nv, i)]
+    if name == "join_two_reads":        # the object is read twice after the join: the second read must still see both paths
+        return ["o%d = Box(0)" % i, "if choice():", "    o%d.f = %s" % (i, cur), "else:", "    o%d.f = %s" % (i, A6), "u%d = o%d.f" % (i, i), "%s = o%d.f" % (nv, i)]
+    if name == "join_alias_reads":      # a read through an alias made after the join, then a read through the original name
+        return ["o%d = Box(0)" % i, "if choice():", "    o%d.f = %s" % (i, cur), "p%d = o%d" % (i, i), "u%d = p%d.f" % (i, i), "w%d = o%d.f" % (i, i), "%s = p%d.f" % (nv, i)]
+    if name == "two_multi_operands":    # both operands of a binary operation carry two values: all four combinations
+        return ["if choice():", "    a%d = %s" % (i, cur), "else:", "    a%d = 5" % i, "if choice():", "    b%d = 10" % i, "else:", "    b%d = 20" % i, "%s = a%d + b%d" % (nv, i, i)]
+    if name == "multi_right_operand":
+        return ["if choice():", "    a%d = %s" % (i, cur), "else:", "    a%d = 5" % i, "%s = 7 - a%d" % (nv, i)]
     if name == "branch_alias_field":
         return ["o%d = Box(0)" % i, "p%d = o%d" % (i, i), "if choice():", "    o%d.f = %s" % (i, cur), "%s = p%d.f" % (nv, i)]
     if name == "two_exits":
@@ -122,10 +130,12 @@ STEPS = ["copy", "arith_add", "arith_sub_neg", "arith_mul", "arith_zero", "conca
          "other_object", "alias_write", "alias_read", "list_elem", "list_write", "ident_call", "add_call", "two_sites_add", "two_sites_ident", "param_field",
          "param_read", "returned_object", "branch", "branch_one_arm", "branch_field", "branch_alias_field", "two_exits", "loop_once",
          "sub3", "concat_digits", "digits_concat", "repeat", "maybe_receiver", "nested_alias_param", "two_literal_exits",
-         "callee_alias_two_arms", "callee_alias_two_exits", "callee_param_two_arms", "two_sites_wrap", "two_sites_fill", "two_sites_wrap2"]
+         "callee_alias_two_arms", "callee_alias_two_exits", "callee_param_two_arms", "two_sites_wrap", "two_sites_fill", "two_sites_wrap2",
+         "join_two_reads", "join_alias_reads", "two_multi_operands", "multi_right_operand"]
 # two-step chains that are always run (shapes known to need both steps)
 CORE_TWO = [("branch", "sub3"), ("branch", "arith_zero"), ("branch", "arith_add"), ("branch", "concat"), ("two_exits", "arith_add"), ("branch", "field"),
-            ("branch", "ident_call"), ("field", "branch"), ("arith_sub_neg", "arith_add"), ("arith_sub_neg", "arith_mul"), ("arith_sub_neg", "add_call"), ("alias_write", "param_read"), ("returned_object", "alias_write"), ("branch_one_arm", "add_call")]
+            ("branch", "ident_call"), ("field", "branch"), ("arith_sub_neg", "arith_add"), ("arith_sub_neg", "arith_mul"), ("arith_sub_neg", "add_call"), ("alias_write", "param_read"), ("returned_object", "alias_write"), ("branch_one_arm", "add_call"),
+            ("two_exits", "two_multi_operands"), ("join_two_reads", "arith_add"), ("branch_field", "join_two_reads")]
 C09_EXCLUDED = {"list_elem", "list_write", "loop_once"}      # arrays are collapsed by design; loops are outside C09
 
 
